@@ -795,9 +795,9 @@ def gen(tier, rng):
                     yield ('exhaustive', 7, [db, [cl], m])
                 if k % 8 == 4 or (thorough and k % 2 == 0):
                     yield ('exhaustive', 10, [db, cl, m])
-                if '*' not in cl and (thorough or k % 6 == 0):
+                if '*' not in cl and (thorough or k % 12 == 0):
                     yield ('exhaustive', 2, [db, cl, m])
-            if len(cl) <= 2 or (len(cl) == 3 and (thorough or j % 4 == 0)):
+            if len(cl) <= 2 or (len(cl) == 3 and (thorough or j % 8 == 0)):
                 yield ('exhaustive', 4, [db, [cl]])
                 if thorough or len(cl) <= 2:
                     yield ('exhaustive', 5, [db, [cl]])
@@ -845,6 +845,58 @@ def gen(tier, rng):
                                 yield ('chains', 10, [db, cl, m])
                             if (jc + m) % (4 if thorough else 12) == 0:
                                 yield ('chains', 8, [db, cl, m, 0])
+    # (a3) the ORDER of the additions: k parents, each with some children, the children of different parents
+    # interleaved in every order in the citation list; min_crossrefs 1..4; a child cited twice (other case), a
+    # parent cited explicitly (then it is no addition), '*' first / last; both reading modes, both engines
+    def interleavings(groups):
+        groups = [g for g in groups if g]
+        if not groups:
+            yield []
+            return
+        for i, g in enumerate(groups):
+            for rest in interleavings(groups[:i] + [g[1:]] + groups[i + 1:]):
+                yield [g[0]] + rest
+    PAR = ['confA', 'ConfB', 'confc']
+    PARX = ['ConfA', 'confb', 'confc']              # how the children spell their parent
+    jt = 0
+    for kpar, sizes_list in ((2, [(x, y) for x in range(1, 5) for y in range(1, 5)]),
+                             (3, [(x, y, z) for x in (1, 2) for y in (1, 2) for z in (1, 2)])):
+        for sizes in sizes_list:
+            kids = [['%s%d' % ('abc'[p_], i + 1) for i in range(sizes[p_])] for p_ in range(kpar)]
+            entries = [[c, [PARX[p_]]] for p_ in range(kpar) for c in kids[p_]]
+            parents = [[PAR[p_], []] for p_ in range(kpar)]
+            for cl0 in interleavings(kids):
+                jt += 1
+                big = max(sizes) >= 4 or kpar == 3
+                if big and not (thorough or jt % 3 == 0):
+                    continue
+                variants = [cl0]
+                if jt % 2 == 0:
+                    variants.append(cl0 + [cl0[0].upper()])                 # a child cited twice, other case
+                    variants.append([PAR[0].upper()] + cl0)                 # a parent cited explicitly
+                else:
+                    variants.append(cl0[:1] + [cl0[-1].upper()] + cl0[1:])
+                    variants.append(cl0 + [PAR[kpar - 1]])
+                if jt % 4 == 0:
+                    variants.append(cl0 + ['*'])
+                    variants.append(['*'] + cl0)
+                dbv = entries + parents if jt % 3 else [entries[0]] + parents[:1] + entries[1:] + parents[1:]
+                for vi, cl in enumerate(variants):
+                    for m in (1, 2, 3, 4):
+                        if m > max(sizes) + 1:
+                            continue
+                        kk = jt + vi + m
+                        yield ('threshold', 3, [dbv, cl, m])
+                        yield ('threshold', 6, [dbv, cl, m, 0])
+                        if kk % 2 == 0 or thorough:
+                            yield ('threshold', 9, [dbv, cl, m, 0])
+                        if kk % 3 == 0 or thorough:
+                            yield ('threshold', 10, [dbv, cl, m])
+                            yield ('threshold', 7, [dbv, [cl], m])
+                        if '*' not in cl and kk % 4 == 0:
+                            yield ('threshold', 2, [dbv, cl, m])
+                        if kk % (6 if thorough else 40) == 0:
+                            yield ('threshold', 8, [dbv, cl, m, 0])
     # (a'') keys beyond ASCII: pairs that str.lower() keeps apart although str.casefold() / NFKC would merge them
     # (they are DIFFERENT entries), and pairs that str.lower() identifies (they are the SAME entry)
     APART = [('weiss2019', 'wei\u00df2019'), ('\u017f1', 's1'), ('\u03c22', '\u03c32'), ('\ufb01x', 'fix'), ('A\u03a3', 'a\u03c3')]
@@ -919,7 +971,7 @@ def gen(tier, rng):
                 c = sp.setdefault(c.lower(), c)
             out.append(c)
         return out
-    nrand = 2500 if not thorough else 8000
+    nrand = 2000 if not thorough else 8000
     for i in range(nrand):
         db = rdb()
         cl = rcites(db, rng.random() < 0.8)
@@ -961,7 +1013,7 @@ def gen(tier, rng):
         if all(k and k != '' for k, _ in db):
             yield ('malformed', 6, [db, cl, m, 0])
 
-RULE = ('unicode: database keys and citations from pairs that str.lower() keeps apart but casefold would merge (ss/\u00df, \u017f/s, \u03c2/\u03c3, \ufb01/fi) and pairs that str.lower() identifies (\u00c9/\u00e9, \u03a3/\u03c3, Kelvin sign/k), through every function; chains: cross-reference chains of length 0..3 (every file order, every subset of the chain cited, with/without \'*\', with/without a sibling, min_crossrefs 1..3) through the bibtex parser with wanted_entries, command_read (incl. the keys left in bib_data.entries) and both engines end to end; exhaustive: every database of N <= 3 entries (keys x1, Y2, z3; each entry with crossref in {none, X1, Y2, Z3, dangling q9}) x every '
+RULE = ('threshold: 2-3 uncited parents with 1-4 children each, the children of different parents interleaved in every order in the citation list (all interleavings; the larger ones strided in the quick tier), min_crossrefs 1..4, a child cited twice in another case, a parent cited explicitly, \'*\' first / last, through add_extra_citations, command_read, both engines, format_bibliography, unfiltered selection; unicode: database keys and citations from pairs that str.lower() keeps apart but casefold would merge (ss/\u00df, \u017f/s, \u03c2/\u03c3, \ufb01/fi) and pairs that str.lower() identifies (\u00c9/\u00e9, \u03a3/\u03c3, Kelvin sign/k), through every function; chains: cross-reference chains of length 0..3 (every file order, every subset of the chain cited, with/without \'*\', with/without a sibling, min_crossrefs 1..3) through the bibtex parser with wanted_entries, command_read (incl. the keys left in bib_data.entries) and both engines end to end; exhaustive: every database of N <= 3 entries (keys x1, Y2, z3; each entry with crossref in {none, X1, Y2, Z3, dangling q9}) x every '
         'citation list up to the length bound over {X1, x1, y2, z3, unknown q9, *} x min_crossrefs 1..min(N,2) (quick) / 1..N (thorough), through add_extra_citations, '
         'Interpreter.command_read (parse-time filtering) and, strided, format_bibliography / unfiltered selection / '
         '_get_crossreferenced_citations; the same databases x wanted lists through BibliographyData(entries, wanted_entries) and the '
